@@ -132,6 +132,36 @@ def case(args):
         sc.close()
 
 
+def crash_case(args):
+    """at every instant a finalized output is accompanied by its audit record: kill at a hook point and look"""
+    (sp, model), point = args
+    sc = t3.Scratch()
+    try:
+        sc.plant(sp.files)
+        impl = t3.run_impl(sc, sp, crash="%s:%d" % point, timeout=60)
+        problems = []
+        nrec = 0
+        for t in model["tasks"]:
+            for port, st, path in t["outs"]:
+                if st or path not in impl["fs"] or path in sp.files:
+                    continue
+                v = impl["fs"].get(path + ".audit.json")
+                if not v:
+                    problems.append(("output-without-audit", "killed at %s:%d: output %r is at its final path without an audit file" % (point[0], point[1], path)))
+                    continue
+                try:
+                    rec = json.loads(v[1])
+                    nrec += 1
+                    if t3.audit_norm(rec) != model["audit"].get(path) and not any(n[0] == "RAW" and "maptags" in n[1] for n in sp.nodes):
+                        problems.append(("audit-differs", "killed at %s:%d: the record next to %r is not the task's record" % (point[0], point[1], path)))
+                except ValueError:
+                    problems.append(("audit-invalid-json", "killed at %s:%d: the audit file of the finalized output %r is not valid JSON" % (point[0], point[1], path)))
+        return {"spec": sp.text(), "bufsize": sp.bufsize, "problems": problems[:3], "known": [], "joined": False, "ntasks": len(model["tasks"]), "rc": impl["rc"], "stderr": "", "yield": None,
+                "wall": impl["wall"], "records": nrec, "shape": 9, "point": point}
+    finally:
+        sc.close()
+
+
 def run(rep, tier, seed):
     proved = vlib.prove(rep, MODULE, THEOREMS)
     ok, msg = vlib.build_ocaml()
@@ -139,6 +169,15 @@ def run(rep, tier, seed):
         raise RuntimeError("extraction/driver build failed: " + msg[-1500:])
     n = 80 if tier == "quick" else 1500
     results = [r for r in t3.run_many(case, [(seed, i) for i in range(n)]) if r]
+    rng = random.Random(seed)
+    ccases = []
+    for k in range(1 if tier == "quick" else 8):
+        sp = t3.gen_workflow(random.Random(seed + k), maxlen=3, nproc=3, allow_params=False)
+        m = t3.run_model(sp.text())
+        if m["status"] == "done" and not m["failed"]:
+            pts, _ = t3.hook_points(sp, prefixes=("exec.", "fin."))
+            ccases += [((sp, m), pt) for pt in pts]
+    results += t3.run_many(crash_case, ccases)
     kf = vlib.known_findings("C10")
     for r in results:
         for kind, path, up, k in r["known"]:
@@ -151,7 +190,7 @@ def run(rep, tier, seed):
     rep.cov["distinct_nontrivial"] = len({r["spec"] for r in results if r["ntasks"] >= 2})
     rep.cov["rule"] = "random workflows (multi-input, multi-output, parameters, fan-out), plus a tagging component on a linear path with a {t:..} placeholder downstream, plus sub-streams (members as upstream records), plus tagged items entering a sub-stream; every <path>.audit.json of the run is parsed: valid JSON, process, non-empty command, start <= finish, duration >= 0, OutFiles contains the file, tags of every upstream record present; and the record without IDs and times must equal, recursively down to the source files, the lineage tree computed by the Coq reference evaluator (command text via the Format model); evaluations = audit records compared; non-trivial = at least two executed tasks"
     rep.cov["samples"] = [results[1]["spec"]]
-    rep.notes["input_distribution"] = {"runs": len(results), "records": sum(r["records"] for r in results), "by_shape": {str(s): sum(1 for r in results if r["shape"] == s) for s in range(5)}}
+    rep.notes["input_distribution"] = {"runs": len(results), "records": sum(r["records"] for r in results), "by_shape": {str(s): sum(1 for r in results if r["shape"] == s) for s in range(5)}, "crash_points": sum(1 for r in results if r["shape"] == 9)}
     rep.assump += ["H-ids: record IDs are pairwise distinct", "a tagging component is the only consumer of the out-port it reads (a sibling consumer of the same IP may or may not see the tag, by timing)"]
 
 
